@@ -339,7 +339,12 @@ func (r *intraProxyStreamReceiver) recvReplicationMessages() error {
 							tag.NewStringTag("targetShard", ClusterShardIDtoString(r.targetShardID)))
 						logged = true
 					}
-					time.Sleep(backoff)
+					// Wait for the target shard to come back, but stop when this receiver is shut down
+					select {
+					case <-shutdown.Channel():
+						return nil
+					case <-time.After(backoff):
+					}
 					if backoff < time.Second {
 						backoff *= 2
 					}
